@@ -129,6 +129,20 @@ Theorem C02_roundtrip_commitment : forall (K : bytes -> bytes) (cr : crypto) (pk
 Proof. exact construct_preconf_verifies. Qed.
 Print Assumptions C02_roundtrip_commitment.
 
+(* Verification keeps no memory: in any sequence of VerifyBid / VerifyPreConfirmation calls on
+   one signer the verdict of a call is the verdict of that call alone, whatever was verified
+   before or after it (so the soundness and binding statements above hold for every call of
+   every session, e.g. for a forged bid that re-uses the digest and signature of a genuine
+   bid verified a moment earlier).  The model is stateless because the Go struct has no
+   mutable field; the "session" classes of the driver compare this with the implementation. *)
+Theorem C02_verify_stateless :
+  forall (K : bytes -> bytes) (cr : crypto) (pre1 post1 pre2 post2 : list sig_call) (c : sig_call),
+  nth_error (sig_session K cr (pre1 ++ c :: post1)) (length pre1) = Some (sig_verdict K cr c) /\
+  nth_error (sig_session K cr (pre1 ++ c :: post1)) (length pre1) =
+  nth_error (sig_session K cr (pre2 ++ c :: post2)) (length pre2).
+Proof. exact session_stateless. Qed.
+Print Assumptions C02_verify_stateless.
+
 (* Malleation, in an abstract group of odd prime order n with points written as discrete
    logarithms: a signature (r, s, bit) on z determines the point R of abscissa r (logarithm k,
    the bit choosing between R and -R) and recovers the key r^-1 (s R - z G).
